@@ -136,6 +136,10 @@ func TestC14Pad(t *testing.T) {
 				t.Fatalf("DecodeRSAPad accepted a ciphertext with bit flipped at byte %d", pos)
 			}
 		}
+		// (6) what was returned stays what it was after the later calls
+		if !bytes.Equal(dec, dwp) || !bytes.Equal(ct, again) {
+			t.Fatalf("the plaintext returned by DecodeRSAPad or the ciphertext returned by RSAPad changed while later ciphertexts were decrypted (negative case: %s)", neg)
+		}
 		st.Case(fmt.Sprintf("%s/%d/%d/%x", k.Name, n, seed, trunc24(data)), true,
 			fmt.Sprintf("key=%s len=%d implTempKeys=%d refTempKeys=%d neg=%s", k.Name, n, implRetries, retries, neg),
 			"key:"+k.Name, fmt.Sprintf("implTempKeys=%d", implRetries), fmt.Sprintf("refTempKeys=%d", min(retries, 4)), "neg:"+neg, lenBucket(n, 144))
@@ -229,6 +233,12 @@ func TestC14Hashed(t *testing.T) {
 			if got, err := crypto.RSADecryptHashed(m, k.Key); err == nil {
 				t.Fatalf("RSADecryptHashed accepted a ciphertext with a bit flipped at byte %d (%d bytes)", pos, len(got))
 			}
+		}
+		// (6) what was returned stays what it was: the results of (3) and (4)
+		// are still the data after the later calls, successful or refused
+		// (a result must not live in storage the next call writes to)
+		if !bytes.Equal(dec, data) || !bytes.Equal(rdec, data) {
+			t.Fatalf("a plaintext returned by RSADecryptHashed (%d bytes) changed while later ciphertexts were decrypted (negative case: %s)", n, neg)
 		}
 		st.Case(fmt.Sprintf("%s/%d/%d/%x", k.Name, n, seed, trunc24(data)), true,
 			fmt.Sprintf("key=%s len=%d neg=%s", k.Name, n, neg), "key:"+k.Name, "neg:"+neg, lenBucket(n, 235))
